@@ -684,7 +684,7 @@ Proof.
   repeat match goal with
          | |- context [String.eqb ?a f] =>
              destruct (String.eqb_spec a f) as [?E|?N];
-             [subst f; cbn [alookup String.eqb Ascii.eqb Bool.eqb];
+             [subst f; cbn [String.eqb Ascii.eqb Bool.eqb]; cbn [alookup];
               repeat match goal with
                      | |- context [String.eqb ?b s] => destruct (String.eqb_spec b s) as [?E2|?N2]; [subst s; reflexivity|]
                      end; reflexivity|]
@@ -698,7 +698,7 @@ Proof.
   repeat match goal with
          | |- context [String.eqb ?a f] =>
              destruct (String.eqb_spec a f) as [?E|?N];
-             [subst f; cbn [alookup String.eqb Ascii.eqb Bool.eqb];
+             [subst f; cbn [String.eqb Ascii.eqb Bool.eqb]; cbn [alookup];
               repeat match goal with
                      | |- context [String.eqb ?b s] => destruct (String.eqb_spec b s) as [?E2|?N2]; [subst s; reflexivity|]
                      end; reflexivity|]
@@ -712,7 +712,7 @@ Proof.
   repeat match goal with
          | |- context [String.eqb ?a f] =>
              destruct (String.eqb_spec a f) as [?E|?N];
-             [subst f; cbn [alookup String.eqb Ascii.eqb Bool.eqb];
+             [subst f; cbn [String.eqb Ascii.eqb Bool.eqb]; cbn [alookup];
               repeat match goal with
                      | |- context [String.eqb ?b s] => destruct (String.eqb_spec b s) as [?E2|?N2]; [subst s; reflexivity|]
                      end; reflexivity|]
